@@ -8,8 +8,8 @@ git -C /tmp/mrepo checkout -q --detach "$(git -C /repo rev-parse HEAD)"
 git -C /tmp/mrepo checkout -q -- . && git -C /tmp/mrepo clean -fdq -e target
 git -C /tmp/mrepo apply "$PATCH"
 [ -d /tmp/vmut ] || git -C /verif worktree add -q --detach /tmp/vmut HEAD
-git -C /tmp/vmut checkout -q --detach "$(git -C /verif rev-parse HEAD)"
 git -C /tmp/vmut checkout -q -- .
+git -C /tmp/vmut checkout -q --detach "$(git -C /verif rev-parse HEAD)"
 cd /tmp/vmut
 for P in "$@"; do
   echo "== $P on $(basename $(dirname $PATCH))"
